@@ -123,12 +123,14 @@ Theorem C03_stream_size_mismatch_writerto_refuted :
     option_map (fun x => match x with (st, fs, after) => (st, values_of "content-length" fs, length after) end) (head_parse wire)
       = Some (200%Z, [s2b "5"], 20%nat).
 Proof. exact refuted_writerto_oversize. Qed.
-(* key=skipbody-on-non-head: "Content-Length: 5" and no body; the reader takes "HTTP/" of the next response as body *)
+(* key=skipbody-on-non-head: "Content-Length: 5" and no body; the connection is closed after it (since /repo a4aa200;
+   before, the reader took "HTTP/" of the next response as the body): the response is truncated, not mis-framed *)
 Theorem C03_exactly_one_response_refuted_skipbody :
   Forall hop_wf prog_skipbody /\ w_status (want_of prog_skipbody) = 200%Z /\
-  exists wire, serve_one ok d0 cfg0 q_get prog_skipbody = (wire, WrOk, false) /\
-    resp_parse MGet wire = None /\
-    option_map p_body (resp_parse MGet (wire ++ second_wire)) = Some (s2b "HTTP/").
+  exists wire, serve_one ok d0 cfg0 q_get prog_skipbody = (wire, WrOk, true) /\
+    values_of "content-length" (match head_parse wire with Some (_, fs, _) => fs | None => [] end) = [s2b "5"] /\
+    match head_parse wire with Some (_, _, after) => after | None => [1] end = [] /\
+    resp_parse MGet wire = None.
 Proof. exact refuted_skipbody. Qed.
 (* key=stream-length-header-lost: no length, no chunking, no close: the next response is read as this body *)
 Theorem C03_exactly_one_response_refuted_length_lost :
